@@ -87,7 +87,7 @@ PROPS["C10"] = {
     "rule": ("rapid state machine over one aggregator built with aggregator.NewMocked (injected clock, harness-owned tick channel, inBuf=0 so "
              "AddMaybe+Snapshot is a barrier): actions point(name,val,ts) with ts drawn relative to the clock (current/previous buckets, exactly "
              "now-wait, now-wait+-1, far past, future, relative to the last tick), advance(dt in {0,1,interval,wait,...}), tick(t<=now, "
-             "non-decreasing); all ten functions, interval 1..60, wait 0..120, cache on/off, rules with and without capture groups, values "
+             "non-decreasing); all ten functions, interval 1..60, wait 0..120, cache on/off, rules with and without capture groups, output keys padded to every length from a few bytes to ~150, values "
              "dyadic rationals. Oracle = reference aggregator written from the statement/docs (bucket = (expanded name, ts-ts%interval); join "
              "existing bucket or open iff start>now-wait else too old; tick emits start<=t-wait ascending), compared after every tick as a "
              "multiset (tolerance 1.5e-6), plus ascending order, six-decimal formatting, never-twice set, TooOld counter after every point. "
